@@ -1,4 +1,4 @@
-\* trace validation against the property-level layer of Driver (set TRACE=<ndjson file>; -workers 1)
+\* trace validation against the property-level layer of Driver (set TRACE=<ndjson file>; -workers 1 -continue)
 SPECIFICATION TraceSpec
 CONSTANTS
   MaxFiles = 2
@@ -13,5 +13,5 @@ CONSTANTS
   PhasesUsed = {"load", "include", "scan", "syscmd", "linear", "parse", "abnorm", "macex", "abcheck", "scobind", "tinfer", "genfoam", "optfoam", "putao", "putlisp", "putjava", "putc", "putobject"}
   KindsUsed = {"ai", "ap", "asy", "ao", "fm", "lsp", "c", "java", "main"}
 INVARIANTS TypeOK HonestExit CompleteOnSuccess NoOutputAfterError FailureSurfaces NothingOpenAtSuccess PendingIsReported
-POSTCONDITION Accepted
+ALIAS TraceAlias
 CHECK_DEADLOCK FALSE
